@@ -11,7 +11,7 @@ from ..result import Result
 ID = "C06"
 RTOL = 1e-10
 TOLERANCES = {"operator on constant (relative to sum |row|*|c0|)": RTOL, "TVD of constant": "bitwise 0",
-              "steady solve": "max(1e-8, 1e-13*cond(step matrix))", "source-only solve": 1e-12}
+              "steady solve": "max(1e-8, 1e-11*cond(step matrix)); cases with cond >= 1e9 discarded", "source-only solve": 1e-12}
 RULE = ("Generated: grid (9 classes, N 1..4 / 1..3 in 3-D, all spacings, r0=0/offset) x D>=0 with zeros/contrast x "
         "arbitrary u, direction field w x constant c0 = +-10^[-6,6] x all 16 limiters; solver part: uniform field, "
         "boundary values matching it (Dirichlet c0 with face-wise scaled coefficients / no-flux / periodic), discretely "
@@ -77,7 +77,7 @@ def strategy(tier):
 
 
 def budget(tier):
-    return 3000 if tier == "quick" else 30000
+    return 3000 if tier == "quick" else 150000
 
 
 def classify(case):
@@ -167,10 +167,11 @@ def check(case):
         cond = float(np.linalg.cond(T_))
     except np.linalg.LinAlgError:
         cond = float('inf')
-    if not cond < 1e12:
+    if not cond < 1e9:
         res.discarded = True
         ok = False
-    tol_steady = max(1e-8, 1e-13 * cond)
+    # rounding of a solve is amplified by cond (and accumulates over the steps); real defects seen are >= 1e-4
+    tol_steady = max(1e-8, 1e-11 * cond)
     for k in range(P['steps'] if ok else 0):
         problem.step_implicit(mm, phi, P, dt)
         v = np.asarray(phi.value)
